@@ -30,6 +30,7 @@ type GenCfg struct {
 	NestGroups int // nesting depth of groups
 	Kinds      []Kind
 	Pos        bool
+	PosPct     int // percent of commands with positionals (default 40)
 	Ns         bool
 	EnvNs      bool
 	Req        int // percent of options marked required
@@ -50,6 +51,8 @@ type GenCfg struct {
 	NonASCII   bool
 	PosReq     bool
 	ProgOnly   bool // only programmatic (executable) commands
+	ByTagPct   int  // percent of commands declared by tag (default 50)
+	CmdPct     int  // percent of commands (below max depth) having sub-commands (default 70)
 }
 
 func pct(t *rapid.T, label string, p int) bool {
@@ -439,10 +442,18 @@ func (g *declGen) cmd(c *Cmd, depth int) {
 			c.G.Groups = append(c.G.Groups, gr)
 		}
 	}
-	if cfg.Pos && pct(t, "hasPos", 40) {
+	posPct := cfg.PosPct
+	if posPct == 0 {
+		posPct = 40
+	}
+	if cfg.Pos && pct(t, "hasPos", posPct) {
 		c.Pos = g.positional()
 	}
-	if depth < cfg.Depth && pct(t, "hasCmds", 70) {
+	cmdPct := cfg.CmdPct
+	if cmdPct == 0 {
+		cmdPct = 70
+	}
+	if depth < cfg.Depth && pct(t, "hasCmds", cmdPct) {
 		n := rapid.IntRange(1, cfg.Fanout).Draw(t, "ncmds")
 		used := map[string]bool{}
 		for i := 0; i < n; i++ {
@@ -465,7 +476,11 @@ func (g *declGen) cmd(c *Cmd, depth int) {
 					sc.Aliases = append(sc.Aliases, al)
 				}
 			}
-			sc.ByTag = c.ByTag || (!cfg.ProgOnly && pct(t, "byTag", 50))
+			btp := cfg.ByTagPct
+			if btp == 0 {
+				btp = 50
+			}
+			sc.ByTag = c.ByTag || (!cfg.ProgOnly && pct(t, "byTag", btp))
 			if cfg.Desc && pct(t, "cmdDesc", 70) {
 				sc.Desc = fmt.Sprintf("command %s", sc.ID)
 			}
@@ -525,6 +540,8 @@ type ArgvCfg struct {
 	BadVal   int // percent of invalid values
 	Quote    int // percent of quoted spellings
 	Help     int // percent of option items that are the built-in help flag
+	TermPos  int // percent: emit the terminator before a level's positionals
+	TypedPos int // percent of plain words typed for the pending positional (default 85)
 }
 
 type argvGen struct {
@@ -534,13 +551,14 @@ type argvGen struct {
 	r    *refRun
 	used []*OptInfo
 	out  []string
+	term bool // a terminator was emitted
 	// labels
 	Labels map[string]int
 }
 
 func newTracker(d *Decl) *refRun {
 	ho := helpOptDecl
-	r := &refRun{in: &RefInput{D: d}, d: d, res: &RefResult{}, posEl: map[string][]interface{}{}, occ: map[string][]interface{}{},
+	r := &refRun{in: &RefInput{D: d}, d: d, res: &RefResult{TokOpt: map[int][]string{}}, posEl: map[string][]interface{}{}, occ: map[string][]interface{}{},
 		occN: map[string]int{}, optsOf: map[*Cmd][]*OptInfo{}}
 	r.helpOpt = &OptInfo{Opt: &ho}
 	r.enter(&d.Root)
@@ -704,14 +722,34 @@ func (g *argvGen) emitCmd() {
 
 func (g *argvGen) emitPlain() {
 	t := g.t
-	if len(g.r.pending) > 0 && pct(t, "typedPos", 85) {
+	if g.term && pct(t, "optLooking", 35) {
+		w := rapid.SampledFrom([]string{"-x", "--ver", "-a=1", "--name=v", "-vv", "--"}).Draw(t, "optLookingWord")
+		g.out = append(g.out, w)
+		if len(g.r.pending) > 0 && !g.r.pending[0].Kind.IsSlice() {
+			g.r.pending = g.r.pending[1:]
+		}
+		return
+	}
+	tp := g.cfg.TypedPos
+	if tp == 0 {
+		tp = 85
+	}
+	if len(g.r.pending) > 0 && pct(t, "typedPos", tp) {
 		pa := g.r.pending[0]
 		if pct(t, "badPos", g.cfg.BadVal) {
 			g.out = append(g.out, genInvalidText(t, pa.Kind, 0))
 		} else {
 			v := genValidText(t, pa.Kind, 0)
-			if isOptSyntax(v) || v == "--" {
-				v = "w" + v
+			if (isOptSyntax(v) || v == "--") && !g.term {
+				switch pa.Kind.Elem() {
+				case KString, KUpper, KComp:
+					v = "w" + v
+				default:
+					v = strings.TrimLeft(v, "-")
+					if _, ver := RefOne(pa.Kind, 0, v); ver != Accept {
+						v = "7"
+					}
+				}
 			}
 			g.out = append(g.out, v)
 		}
@@ -821,6 +859,7 @@ func (g *argvGen) item() {
 		g.emitPlain()
 	case 4:
 		g.out = append(g.out, "--")
+		g.term = true
 	case 5:
 		g.emitUnknown()
 	case 6:
@@ -864,6 +903,10 @@ func genArgv(t *rapid.T, d *Decl, cfg *ArgvCfg) []string {
 			}
 		}
 		// positionals of this level
+		if len(g.r.pending) > 0 && !g.term && pct(t, "termBeforePos", cfg.TermPos) {
+			g.out = append(g.out, "--")
+			g.term = true
+		}
 		for len(g.r.pending) > 0 {
 			pa := g.r.pending[0]
 			if pa.Kind.IsSlice() {
